@@ -7,8 +7,8 @@ from argh import hx
 
 PROP = "C05"
 BATCH = 20
-RULE = ("case = (ordered list of key specifications, abbreviations on/off). Specifications come from a 24-spec universe "
-        "built from shorts {a,b,c,i} and longs {in, inp, input, input-file, input-dir, out, o2} (prefix chains, with and "
+RULE = ("case = (ordered list of key specifications, abbreviations on/off). Specifications come from a 25-spec universe "
+        "built from shorts {a,b,c,i} and longs {in, inp, input, input-file, input-dir, out, o2, i-o} (prefix chains, with and "
         "without leading dashes, 'short,long' in both orders). quick: every set of <= 2 specs in every order (exhaustive) "
         "+ random sets of 3-6 specs in 4 random orders; thorough: every set of <= 3 specs in every definition order "
         "(exhaustive, 12 720 ordered lists) x {abbr on, off} + random larger sets. Every argument has its own int slot; "
@@ -22,8 +22,8 @@ ASSUMPTIONS = ["one-character long keys and one-character prefixes are not probe
 UNIVERSE = ["a", "b", "i", "-c",
             "in", "inp", "input", "--input-file", "input-dir", "out", "o2",
             "a,in", "b,in", "a,inp", "i,input", "input,c", "-b,--input-file", "c,input-dir", "i,out", "a,out",
-            "b,o2", "c,o2", "i,in", "input-dir,a"]
-LONGS = ["in", "inp", "input", "input-file", "input-dir", "out", "o2"]
+            "b,o2", "c,o2", "i,in", "input-dir,a", "i-o"]
+LONGS = ["in", "inp", "input", "input-file", "input-dir", "out", "o2", "i-o"]
 SHORTS = ["a", "b", "c", "i"]
 
 
@@ -53,7 +53,7 @@ def lists_for(tier):
 
 
 def nrandom(tier):
-    return 3000 if tier == "quick" else 40000
+    return 10000 if tier == "quick" else 40000
 
 
 def cases(tier):
@@ -160,7 +160,7 @@ def judge(c, results, rep):
 
 
 def finalize(chk):
-    chk.coverage["exhaustive_part"] = "all ordered lists of <= %d specs from the 24-spec universe x abbr on/off" % (2 if chk.tier == "quick" else 3)
+    chk.coverage["exhaustive_part"] = "all ordered lists of <= %d specs from the 25-spec universe x abbr on/off" % (2 if chk.tier == "quick" else 3)
 
 
 def run(tier, seed, modes=None):
